@@ -68,6 +68,8 @@ func spellSeg(g string, i int) string {
 		return ")"
 	case "hashOp":
 		return "#>"
+	case "identKwU8":
+		return []string{"not\u00e9", "all\u00e9e", "i\u00e7in", "\u00e9select", "from\u00fc", "is\u00e4"}[i%6]
 	case "strKw":
 		return "'select  from'"
 	case "strMulti":
@@ -133,8 +135,8 @@ func view(text string) tokView {
 		val := tk.Token.Value
 		quoted := tk.Token.Type == models.TokenTypeSingleQuotedString || tk.Token.Type == models.TokenTypeDoubleQuotedString || tk.Token.Quote != 0 ||
 			strings.Contains(tk.Token.Type.String(), "STRING") || strings.Contains(tk.Token.Type.String(), "QUOTED")
-		if !quoted {
-			val = strings.ToUpper(val) // the letter case of unquoted words may change
+		if !quoted && tk.Token.Type != models.TokenTypeIdentifier {
+			val = strings.ToUpper(val) // the letter case of keywords may change; an identifier keeps its spelling
 		}
 		v.toks = append(v.toks, fmt.Sprintf("%s:%s", tk.Token.Type.String(), val))
 	}
